@@ -9,7 +9,7 @@ import (
 
 func init() {
 	register(&propDef{ID: "C17", Run: runC17,
-		Explain:    "Structural necessary conditions of 'header spelling and list layout do not change behaviour', decided on SSA/value flow of /repo: (1) comparator-discipline: every string comparison, ordering, prefix/fold call or map lookup with an operand that derives (by value flow) from Header.name occurs inside the canonical comparator isSameHeader; (2) comparator-internals: the comparator answers true exactly on EqualFold(a,b) or (compact form of b registered and EqualFold(a, compact)), and the compact table is written and read through ToLower on both sides, in both directions; (3) compact-table: every constant header name that reaches the comparator and has a compact form in the RFC 3261/IANA registry is registered by init with that letter, and no registered pair contradicts the registry; (4) layout: the Via walk leaves its loop only by exhaustion and calls the processor for every matching decodable header; PopVia/PopRoute structure is shared with C02/C13.",
+		Explain:    "Structural necessary conditions of 'header spelling and list layout do not change behaviour', decided on SSA/value flow of /repo: (1) comparator-discipline: every string comparison, ordering, prefix/fold call or map lookup with an operand that derives (by value flow) from Header.name occurs inside the canonical comparator isSameHeader; (2) comparator-internals: the comparator answers true exactly on EqualFold(a,b) or (compact form of b registered and EqualFold(a, compact)), and the compact table is written and read through ToLower on both sides, in both directions; (3) compact-table: every constant header name that reaches the comparator and has a compact form in the RFC 3261/IANA registry is registered by init with that letter, and no registered pair contradicts the registry; (4) layout: the Via walk leaves its loop only by exhaustion and calls the processor for every matching decodable header; PopVia/PopRoute structure is shared with C02/C13. Layout also: every element of a comma-separated Via is trimmed before it is decoded (elements-trimmed); Route.routeParams is written by its decoder and by delete-first only; ordered-lists (shared with C14): the entries of one header line do not share storage.",
 		NotDecided: "the metamorphic relation on full pipelines (destination and content equality between respelled variants)."})
 }
 
@@ -34,6 +34,9 @@ func runC17(c *Ctx) {
 	rulePurePrinters(c, "layout")
 	c01ValueEffects(c)
 	_ = w
+	// the entries of one header line do not share storage: an edit of the top entry (the stamp) must not reach into
+	// its neighbours on the same line, which it cannot reach in the split layout (shared with C14/C02)
+	c14OrderedLists(c)
 }
 
 func c17Internals(c *Ctx) {
@@ -238,6 +241,7 @@ func c17CompactTable(c *Ctx) {
 
 func c17Layout(c *Ctx) {
 	c17WalkLayout(c)
+	c17ElementsTrimmed(c)
 	if c.Prop != "C17" {
 		return
 	}
@@ -275,6 +279,42 @@ func c17Layout(c *Ctx) {
 		}
 	}
 	c.check(n >= 2, rule, ref+"/writers", "-", "decoder and pop found", fmt.Sprintf("only %d writers of %s found", n, ref))
+}
+
+// c17ElementsTrimmed: the elements of a comma-separated Via line may be surrounded by blanks (COMMA = SWS "," SWS); a
+// Via header line of its own has its blanks trimmed by the message parser. So that both layouts decode alike, ParseVia
+// trims every element before it decodes it - otherwise "a;branch=1 , b" gives the branch "1 " and the split twin "1",
+// and the transaction id depends on the layout. (Repaired as D28.)
+func c17ElementsTrimmed(c *Ctx) {
+	w := c.w
+	rule := "layout"
+	f := c.fn(rule, "ParseVia")
+	if f == nil {
+		return
+	}
+	n, good := 0, true
+	for _, cs := range w.callsIn(f, "parseViaParam") {
+		n++
+		trimmed := false
+		for _, v := range phiLeaves(callArg(cs.In, 0)) {
+			cc, _ := callOfResult(v)
+			if cc != nil && (w.calleeName(cc) == "strings.Trim" || w.calleeName(cc) == "strings.TrimSpace") {
+				if w.calleeName(cc) == "strings.Trim" {
+					if cut, ok := constString(cc.Call.Args[1]); !ok || !strings.Contains(cut, " ") || !strings.Contains(cut, "\t") {
+						continue
+					}
+				}
+				trimmed = true
+			} else {
+				trimmed = false
+				break
+			}
+		}
+		if !trimmed {
+			good = false
+		}
+	}
+	c.check(good && n >= 1, rule, "ParseVia/elements-trimmed", w.pos(f.Pos()), "every element of a Via list is trimmed before it is decoded", "ParseVia decodes the elements of a comma-separated Via line without trimming the blanks around them: Via: a;branch=1 , b keeps the blank in the branch (\"1 \"), the same list written on two lines does not - the transaction id, and with it the connection a response returns on, depends on the layout")
 }
 
 func c17WalkLayout(c *Ctx) {
